@@ -1,32 +1,57 @@
 (* templates: common ta_io *)
 (* C03: evaluates the verified gates on (input, implementation output) and compares with the model.
    input line:  trim <T> ||| U <T> L <T> E <0|1> I <T>
-   output line: OK | FAIL <which gate> ; followed by drift flags *)
+           or:  trimh <T> { mode nf f.. }* ||| U <T> L <T> E e I <T> { V <T> U <T> L <T> E e I <T> }*   (see harness/drv/c03.cc)
+   output line: OK | FAIL <which gate> ; followed by drift flags
+   Every stage of a history is judged like a single case, on the value V the object shows before the calls (gates prefixed again_);
+   history_value = that value is not the one the stage must produce (rules of the object it was derived from, the given final states). *)
 open Ex_c03
 open Common_c03
 open Ta_io_c03
 
-let () = each_line (fun l ->
-  let (c, o) = split_bar l in
-  let t = toks_of_line c in expect t "trim"; let a = read_ta t in
+let judge pre a u l e i fails drift =
+  let fail g = fails := (pre ^ g) :: !fails and dr g = drift := (pre ^ g) :: !drift in
+  if not (gate_unreach a u) then fail "unreach";
+  if not (gate_useless a l) then fail "useless";
+  if not (gate_empty a e) then fail "empty";
+  if not (ta_same a i) then fail "operand_changed";
+  if not (ta_same u (remove_unreachable a)) then dr "unreach";
+  if not (ta_same l (remove_useless a)) then dr "useless";
+  if e <> is_lang_empty a then dr "empty"
+
+let () = each_line (fun l0 ->
+  let (c, o) = split_bar l0 in
+  let ct = toks_of_line c in let kind = word ct in let a = read_ta ct in
   let t = toks_of_line o in
   match peek t with
   | Some "EXC" -> "FAIL exception " ^ o
   | _ ->
-    expect t "U"; let u = read_ta t in
-    expect t "L"; let l = read_ta t in
-    expect t "E"; let e = (num t = 1) in
-    expect t "I"; let i = read_ta t in
-    let fails = List.concat [
-      (if gate_unreach a u then [] else ["unreach"]);
-      (if gate_useless a l then [] else ["useless"]);
-      (if gate_empty a e then [] else ["empty"]);
-      (if ta_same a i then [] else ["operand_changed"]) ] in
-    let drift = List.concat [
-      (if ta_same u (remove_unreachable a) then [] else ["unreach"]);
-      (if ta_same l (remove_useless a) then [] else ["useless"]);
-      (if e = is_lang_empty a then [] else ["empty"]) ] in
+    let fails = ref [] and drift = ref [] in
+    let stage pre a =
+      expect t "U"; let u = read_ta t in
+      expect t "L"; let l = read_ta t in
+      expect t "E"; let e = (num t = 1) in
+      expect t "I"; let i = read_ta t in
+      judge pre a u l e i fails drift; (u, l) in
+    let (u0, l0) = stage "" a in
+    let cur = ref a and lu = ref u0 and ll = ref l0 and stages = ref 0 in
+    if kind = "trimh" then begin
+      while peek ct <> None do
+        let mode = num ct in let nf = num ct in let fin = times nf (fun () -> n_of_int (num ct)) in
+        let expected = (match mode with
+          | 0 | 1 -> { rules = !cur.rules; finals = fin }
+          | 2 -> { rules = !lu.rules; finals = fin }
+          | 3 -> { rules = !ll.rules; finals = fin }
+          | _ -> !ll) in
+        expect t "V"; let v = read_ta t in
+        if not (ta_same v expected) then fails := "history_value" :: !fails;
+        let (u, l) = stage "again_" v in
+        cur := v; lu := u; ll := l; incr stages
+      done
+    end;
+    let fails = List.sort_uniq compare !fails and drift = List.sort_uniq compare !drift in
     (if fails = [] then "OK" else "FAIL " ^ String.concat "," fails)
     ^ (if drift = [] then "" else " DRIFT " ^ String.concat "," drift)
     ^ (if is_empty a then " empty" else " nonempty")
-    ^ (if ta_same a (remove_useless a) then "" else " dead"))
+    ^ (if ta_same a (remove_useless a) then "" else " dead")
+    ^ (if !stages > 0 then Printf.sprintf " history stages=%d" !stages else ""))
